@@ -101,28 +101,53 @@ def chanOfOpen (sid : UInt16) (o : DcepOpen) : Chan :=
     maxLifetime := if (o.channelType &&& 0x03) == 0x02 then some o.reliability.toUInt16 else none,
     reasm := [], events := [.open_] }
 
-/-- `handle_dcep(stream_id, data)`; `false` = `Err` -/
-def handleDcep (pl : Pl) (sid : UInt16) (data : Bytes) : Pl × Bool :=
+/-- `handle_dcep(stream_id, data)` on the parts of the endpoint it touches (channel table, requested
+actions); `false` = `Err` -/
+def dcepCore (chans : List Chan) (acts : List Act) (sid : UInt16) (data : Bytes) : (List Chan × List Act) × Bool :=
   match data with
-  | [] => (pl, true)
+  | [] => ((chans, acts), true)
   | t :: _ =>
     if t == 0x03 then
       match DcepOpen.unmarshal data with
-      | none => (pl, false)
+      | none => ((chans, acts), false)
       | some o =>
-        let pl1 :=
-          if pl.chans.any (fun c => c.id == sid) then pl
-          else { pl with chans := pl.chans ++ [chanOfOpen sid o], acts := pl.acts ++ [.newChannel sid] }
-        ({ pl1 with acts := pl1.acts ++ [.dcepAck sid] }, true)
+        if chans.any (fun c => c.id == sid) then ((chans, acts ++ [.dcepAck sid]), true)
+        else ((chans ++ [chanOfOpen sid o], acts ++ [.newChannel sid, .dcepAck sid]), true)
     else if t == 0x02 then
-      match findChan pl.chans sid with
+      match findChan chans sid with
       | some dc =>
-        if dc.state == 0 then ({ pl with chans := setChan pl.chans ({ dc with state := 1 }.emit .open_) }, true)
-        else (pl, true)
-      | none => (pl, true)
-    else (pl, true)
+        if dc.state == 0 then ((setChan chans ({ dc with state := 1 }.emit .open_), acts), true)
+        else ((chans, acts), true)
+      | none => ((chans, acts), true)
+    else ((chans, acts), true)
 
-/-- `process_data_payload` -/
+/-- `handle_dcep(stream_id, data)`; `false` = `Err` -/
+def handleDcep (pl : Pl) (sid : UInt16) (data : Bytes) : Pl × Bool :=
+  let r := dcepCore pl.chans pl.acts sid data
+  ({ pl with chans := r.1.1, acts := r.1.2 }, r.2)
+
+def getDcepBuf (bs : List (UInt16 × Bytes)) (sid : UInt16) : Bytes :=
+  match bs.find? (fun e => e.1 == sid) with
+  | some e => e.2
+  | none => []
+
+def setDcepBuf (bs : List (UInt16 × Bytes)) (sid : UInt16) (b : Bytes) : List (UInt16 × Bytes) :=
+  (sid, b) :: bs.filter (fun e => e.1 != sid)
+
+/-- the DCEP branch of `process_data_payload` after the SSN placeholder: a message is collected
+from its B fragment to its E fragment (an orphan fragment is dropped), then handed to `handle_dcep`;
+a `handle_dcep` error only drops the message (the chunk still counts as processed) -/
+def procDcep (pl : Pl) (c : DChunk) : Pl :=
+  if c.bBit && c.eBit then (handleDcep pl c.sid c.data).1
+  else
+    let cur := getDcepBuf pl.dcepBuf c.sid
+    if !c.bBit && cur.isEmpty then pl
+    else
+      let buf := (if c.bBit then [] else cur) ++ c.data
+      if !c.eBit then { pl with dcepBuf := setDcepBuf pl.dcepBuf c.sid buf }
+      else (handleDcep { pl with dcepBuf := setDcepBuf pl.dcepBuf c.sid [] } c.sid buf).1
+
+/-- `process_data_payload` (never returns `Err` any more: the second component is always `true`) -/
 def procPayload : Proc := fun pl c =>
   if c.ppid.toNat == dcPpidDcep then
     let pl1 :=
@@ -130,8 +155,11 @@ def procPayload : Proc := fun pl c =>
         let r := (getStream pl.streams c.sid).enqueue c.ssn []
         { pl with streams := setStream pl.streams c.sid r.1 }
       else pl
-    handleDcep pl1 c.sid c.data
+    (procDcep pl1 c, true)
   else (procData pl c, true)
+
+theorem procPayload_ok (pl : Pl) (c : DChunk) : (procPayload pl c).2 = true := by
+  unfold procPayload; split <;> rfl
 
 /-- `handle_data` -/
 def handleData (s : Rx) (c : DChunk) : Rx := handleDataWith procPayload s c
